@@ -11,7 +11,7 @@ BOTH['Clipper2Lib::Clipper64::BuildTree64('] = 'stub_buildtree64'
 META = dict(
   level_text='Model checking of the state-handling mechanisms the property depends on: (offsetting) stub-and-observe of ClipperOffset::Execute/DoGroupOffset showing that what is done to a path or group does not depend on the paths/groups processed before it; (engine) the scratch state a history can leave behind is made symbolic and one Execute on concrete geometry must produce the result of a fresh object; CleanUp()/Clear() empty every per-execution container.',
   level_note='History is not enumerated: instead the state a history can leave behind is havocked (symbolic scalars, poisoned pointers). Geometry is concrete (corpus listed in evidence); the quantifier is over left-behind state, option values, delta/join/end types.',
-  functions=['ClipperOffset::ExecuteInternal', 'ClipperOffset::DoGroupOffset', 'ClipperOffset::Group::Group', 'ClipperBase::CleanUp', 'ClipperBase::Clear', 'ClipperBase::Reset', 'Clipper64::Execute', 'RectClip64::Execute (per-path clean-up)'],
+  functions=['ClipperOffset::Execute(double, PolyTree64&) / (double, Paths64&)', 'ClipperOffset::ExecuteInternal', 'ClipperOffset::DoGroupOffset', 'ClipperOffset::Group::Group', 'ClipperBase::CleanUp', 'ClipperBase::Clear', 'ClipperBase::Reset', 'Clipper64::Execute', 'RectClip64::Execute (per-path clean-up)'],
   assumptions=['concrete small geometries', '0.5 <= |delta| <= 1e6'],
   outside=['sequences of AddSubject/Execute over symbolic geometry', 'RectClip64 per-path clean-up (see C08)'],
 )
